@@ -336,6 +336,7 @@ class Report:
         self.rule = ""
         self.extra = {}
         self.exhaustive = None
+        self.replay_mode = False   # a --replay run neither rewrites the evidence file nor clears earlier replays
 
     def add_model(self, name, res, what=""):
         self.states += res.distinct
@@ -366,7 +367,8 @@ class Report:
 
     def finish(self):
         os.makedirs(EVID, exist_ok=True)
-        shutil.rmtree(os.path.join(REPLAYS, self.pid), ignore_errors=True)   # replays of earlier runs
+        if not self.replay_mode:
+            shutil.rmtree(os.path.join(REPLAYS, self.pid), ignore_errors=True)   # replays of earlier runs
         known = known_findings(self.pid)
         real = []
         for what, obj in self.violations:
@@ -407,9 +409,10 @@ class Report:
             "wall_s": round(time.time() - self.t0, 2),
             "violations": len(real),
         }
-        with open(os.path.join(EVID, self.pid + ".json"), "w") as f:
-            json.dump(ev, f, indent=1, sort_keys=True)
-            f.write("\n")
+        if not self.replay_mode:
+            with open(os.path.join(EVID, self.pid + ".json"), "w") as f:
+                json.dump(ev, f, indent=1, sort_keys=True)
+                f.write("\n")
         for kf in self.known:
             print("KNOWN-FINDING: property=%s %s" % (self.pid, kf.get("what", kf.get("match"))))
         if real:
@@ -417,7 +420,7 @@ class Report:
             os.makedirs(d, exist_ok=True)
             log("%d violations; the first %d are written out" % (len(real), min(len(real), 5)))
             for i, (what, obj) in enumerate(real[:5]):
-                path = os.path.join(d, "%d.json" % i)
+                path = os.path.join(d, ("replayed-%d.json" if self.replay_mode else "%d.json") % i)
                 with open(path, "w") as f:
                     json.dump({"property": self.pid, "what": what, "seed": self.seed,
                                "tier": self.tier, "replay": obj}, f, indent=1)
